@@ -228,7 +228,10 @@ pub fn run(ctx: &mut Ctx) {
         let a = s0.assertions_with_predicate(known_values::SSKR_SHARE)[0].clone();
         let salted = s0.remove_assertion(a.clone()).add_assertion_envelope(a.add_salt()).unwrap();
         let elided_obj = s0.elide_removing_target(&a.as_object().unwrap());
-        for (label, v) in [("salted", salted), ("elided-object", elided_obj)] {
+        // a share whose data is cut short (what a hostile or damaged share envelope may carry)
+        let cut = rng.below(6);
+        let short = s0.remove_assertion(a.clone()).add_assertion(known_values::SSKR_SHARE, SSKRShare::from_data(rng.bytes(cut)));
+        for (label, v) in [("salted", salted), ("elided-object", elided_obj), ("short-share-data", short)] {
             let mut subset: Vec<&Envelope> = vec![&v];
             for grp in &shares {
                 for s in grp {
